@@ -6,7 +6,7 @@
    primitives are universally quantified functions; what is assumed about them
    is exactly the two law bundles below. *)
 From Coq Require Import List NArith Bool.
-From Tink Require Import Bytes Xwing Hpke Ecies HpkeProofs EciesProofs.
+From Tink Require Import Bytes Xwing Hpke Ecies HpkeProofs EciesProofs HpkeBinding EciesBinding.
 Import ListNotations.
 Open Scope N_scope.
 
@@ -159,18 +159,76 @@ Theorem C06_label_info_length_field :
 Proof. intros. split; [apply label_info_err|apply label_info_ok]. Qed.
 Print Assumptions C06_label_info_length_field.
 
-(* ---- symbolic binding ----
-   "Collision" = two different inputs with the same output, exhibited for
-   HKDF-Extract, HKDF-Expand, AEAD Seal, or two different encapsulated keys
-   with the same decapsulation.  (A hypothesis "no collisions exist" would be
-   unsatisfiable together with the length law of Expand; so the theorems return
-   the collision instead of assuming its absence.) *)
+(* ---- symbolic binding, explicit form ----
+   (An earlier version of these theorems concluded "... \/ expand_collision expand"
+   with the output length of the collision existentially quantified: n = 0 makes
+   that disjunct provable outright - see C06_old_collision_predicates_hold_outright
+   at the end of this section - and even for n > 0 the bare existence of a
+   collision of a function with 256^n outputs is a fact of counting.  The
+   statements below therefore never say "a collision exists"; they say which
+   calls of THIS run coincide.)
 
-(* Change the encapsulated key and/or the info, leave the payload: Decrypt
-   yields Err, or the tampered computation collides with the honest one. *)
+   Events (proofs/HpkeBinding.v), each an equation between two calls of one
+   primitive on stated, different inputs:
+     seal_clash a key bn p key' bn' p'     (key, bn) <> (key', bn')  and  Seal(key, bn, "", p) = Seal(key', bn', "", p')
+     expand_clash h prk i prk' i' n        0 < n, (prk, i) <> (prk', i')  and  Expand(prk, i, n) = Expand(prk', i', n)
+     extract_clash h x s x' s'             (x, s) <> (x', s')  and  Extract(ikm = x, salt = s) = Extract(x', s')
+     ks_clash k d a ss info ss' info'      the key schedules of (ss, info) and (ss', info') meet:
+         both  expand_clash (secret, LabeledInfo("key", ctx), Nk)  and  expand_clash (secret, LabeledInfo("base_nonce", ctx), Nn)
+         with secret = LabeledExtract(salt = ss, "secret", ""), ctx = mode || psk_id_hash || info_hash (Nk >= 16, Nn = 12),
+         or ss <> ss' and extract_clash on the two "secret" extractions,
+         or info <> info' and extract_clash on the two "info_hash" extractions
+     kem_enc_clash k skR enc enc'          two encapsulated keys, one private key, one shared secret:
+         DHKEM   expand_clash of the "shared_secret" Expand (Nh = 32/48/64 bytes) on the KEM contexts enc || pkR <> enc' || pkR
+         ML-KEM  mlkem_decap skR enc = mlkem_decap skR enc' = Some ss
+         X-Wing  the combiner SHA3-256(ssM || ssX || ctX || pkX || label) collides on different inputs,
+                 or ML-KEM-768 gives one secret for two ciphertexts under one key
+     kem_key_clash k skR skR' enc          one encapsulated key, two private keys with different public keys, one shared secret
+         (same three shapes; DHKEM: KEM contexts enc || pkR <> enc || pkR')
+     schedules_meet ... kem_level :=
+         seal_clash a key bn pt key' bn' p'
+         \/ (key' = key /\ bn' = bn /\ p' = pt /\ (ks_clash k d a ss info ss' info' \/ (ss' = ss /\ info' = info /\ kem_level))) *)
+
+(* 32-byte outputs of ML-KEM-768 and X25519: the X-Wing combiner input parses uniquely *)
+Definition xwing_len_laws (dh : kem -> bytes -> bytes -> option bytes)
+    (mlkem_decap : kem -> bytes -> bytes -> option bytes) : Prop :=
+  (forall seed ct ss, mlkem_decap MLKEM768 seed ct = Some ss -> length ss = 32%nat) /\
+  (forall sk pk ss, dh X25519 sk pk = Some ss -> length ss = 32%nat).
+
+(* Change the encapsulated key and/or the info, leave the payload.  If Decrypt
+   accepts, then both decapsulations and both key schedules succeed, the one
+   payload is Seal under both (key, nonce) pairs, and the two schedules meet in
+   one of the named ways.  All seven KEMs. *)
 Theorem C06_hpke_binding_enc_and_info :
   forall extract expand dh dh_pub mlkem_decap mlkem_encap mlkem_pub shake256 sha3_256 seal open,
   hpke_laws expand dh dh_pub mlkem_decap mlkem_encap mlkem_pub seal open ->
+  xwing_len_laws dh mlkem_decap ->
+  forall k d a prefix skR pkR eph info pt c enc payload enc' info' p',
+    public_from_private dh_pub mlkem_pub shake256 k skR = Ok pkR ->
+    hpke_encrypt extract expand dh dh_pub mlkem_encap sha3_256 seal k d a prefix pkR eph info pt = Ok c ->
+    c = prefix ++ enc ++ payload -> length enc = n_enc k -> length enc' = n_enc k ->
+    (enc' <> enc \/ info' <> info) ->
+    hpke_decrypt extract expand dh dh_pub mlkem_decap shake256 sha3_256 open k d a prefix skR
+      (prefix ++ enc' ++ payload) info' = Ok p' ->
+    exists ss ss' key bn key' bn',
+      decap extract expand dh dh_pub mlkem_decap shake256 sha3_256 k enc skR = Ok ss /\
+      decap extract expand dh dh_pub mlkem_decap shake256 sha3_256 k enc' skR = Ok ss' /\
+      key_schedule extract expand k d a ss info = Ok (key, bn) /\
+      key_schedule extract expand k d a ss' info' = Ok (key', bn') /\
+      payload = seal a key bn [] pt /\ payload = seal a key' bn' [] p' /\
+      schedules_meet extract expand seal k d a ss info ss' info' key bn key' bn' pt p'
+        (enc' <> enc /\ kem_enc_clash extract expand dh dh_pub mlkem_decap shake256 sha3_256 k skR enc enc').
+Proof.
+  intros until open. intros HL [X1 X2]. use_hpke_laws HL. intros.
+  eapply hpke_binding_enc_info_explicit with (mlkem_encap := mlkem_encap) (mlkem_pub := mlkem_pub); eassumption.
+Qed.
+Print Assumptions C06_hpke_binding_enc_and_info.
+
+(* The same as an outcome: Err, or acceptance with that explanation (never Panic). *)
+Theorem C06_hpke_binding_enc_and_info_err :
+  forall extract expand dh dh_pub mlkem_decap mlkem_encap mlkem_pub shake256 sha3_256 seal open,
+  hpke_laws expand dh dh_pub mlkem_decap mlkem_encap mlkem_pub seal open ->
+  xwing_len_laws dh mlkem_decap ->
   forall k d a prefix skR pkR eph info pt c enc payload enc' info',
     public_from_private dh_pub mlkem_pub shake256 k skR = Ok pkR ->
     hpke_encrypt extract expand dh dh_pub mlkem_encap sha3_256 seal k d a prefix pkR eph info pt = Ok c ->
@@ -178,58 +236,93 @@ Theorem C06_hpke_binding_enc_and_info :
     (enc' <> enc \/ info' <> info) ->
     hpke_decrypt extract expand dh dh_pub mlkem_decap shake256 sha3_256 open k d a prefix skR
       (prefix ++ enc' ++ payload) info' = Err
-    \/ extract_collision extract \/ expand_collision expand \/ seal_collision seal
-    \/ decap_collision extract expand dh dh_pub mlkem_decap shake256 sha3_256 k skR.
-Proof. intros until open. intros HL. use_hpke_laws HL. intros. eapply hpke_binding_enc_info_err; eassumption. Qed.
-Print Assumptions C06_hpke_binding_enc_and_info.
+    \/ exists p' ss ss' key bn key' bn',
+      hpke_decrypt extract expand dh dh_pub mlkem_decap shake256 sha3_256 open k d a prefix skR
+        (prefix ++ enc' ++ payload) info' = Ok p' /\
+      decap extract expand dh dh_pub mlkem_decap shake256 sha3_256 k enc skR = Ok ss /\
+      decap extract expand dh dh_pub mlkem_decap shake256 sha3_256 k enc' skR = Ok ss' /\
+      key_schedule extract expand k d a ss info = Ok (key, bn) /\
+      key_schedule extract expand k d a ss' info' = Ok (key', bn') /\
+      payload = seal a key bn [] pt /\ payload = seal a key' bn' [] p' /\
+      schedules_meet extract expand seal k d a ss info ss' info' key bn key' bn' pt p'
+        (enc' <> enc /\ kem_enc_clash extract expand dh dh_pub mlkem_decap shake256 sha3_256 k skR enc enc').
+Proof.
+  intros until open. intros HL [X1 X2]. use_hpke_laws HL. intros.
+  eapply hpke_binding_enc_info_err with (mlkem_encap := mlkem_encap) (mlkem_pub := mlkem_pub); eassumption.
+Qed.
+Print Assumptions C06_hpke_binding_enc_and_info_err.
 
-(* For the Diffie-Hellman KEMs a decapsulation collision is itself an Expand
-   collision (the KEM context enc || pkR goes into the labeled Expand). *)
-Theorem C06_hpke_binding_enc_and_info_dhkem :
+(* Another private key (public key pkR' <> pkR), ciphertext and info untouched, all
+   seven KEMs.  Acceptance forces the two schedules to meet; at the KEM level that
+   is kem_key_clash: for the Diffie-Hellman KEMs a collision of the "shared_secret"
+   Expand on enc || pkR <> enc || pkR'; for ML-KEM the event "both keys decapsulate
+   enc to the same secret" (no law of ML-KEM forbids it: implicit rejection makes it
+   improbable, not impossible, so it is an event, not a contradiction); for X-Wing
+   a combiner collision or that ML-KEM-768 event. *)
+Theorem C06_hpke_binding_other_private_key :
   forall extract expand dh dh_pub mlkem_decap mlkem_encap mlkem_pub shake256 sha3_256 seal open,
   hpke_laws expand dh dh_pub mlkem_decap mlkem_encap mlkem_pub seal open ->
-  forall k d a prefix skR pkR eph info pt c enc payload enc' info' p',
-    is_dhkem k = true ->
-    public_from_private dh_pub mlkem_pub shake256 k skR = Ok pkR ->
-    hpke_encrypt extract expand dh dh_pub mlkem_encap sha3_256 seal k d a prefix pkR eph info pt = Ok c ->
-    c = prefix ++ enc ++ payload -> length enc = n_enc k -> length enc' = n_enc k ->
-    (enc' <> enc \/ info' <> info) ->
-    hpke_decrypt extract expand dh dh_pub mlkem_decap shake256 sha3_256 open k d a prefix skR
-      (prefix ++ enc' ++ payload) info' = Ok p' ->
-    extract_collision extract \/ expand_collision expand \/ seal_collision seal.
-Proof. intros until open. intros HL. use_hpke_laws HL. intros. eapply hpke_binding_enc_info_dhkem; eassumption. Qed.
-Print Assumptions C06_hpke_binding_enc_and_info_dhkem.
-
-(* X-Wing: a decapsulation collision is a SHA3-256 collision of the combiner
-   SHA3-256(ssM || ssX || ctX || pkX || label) or an ML-KEM-768 ciphertext
-   collision (two ciphertexts with the same decapsulation under one key);
-   ML-KEM / X25519 outputs are 32 bytes. *)
-Theorem C06_xwing_decap_collision_is_sha3_or_mlkem_collision :
-  forall extract expand dh dh_pub mlkem_decap shake256 sha3_256 skR,
-    (forall seed ct ss, mlkem_decap MLKEM768 seed ct = Some ss -> length ss = 32%nat) ->
-    (forall sk pk ss, dh X25519 sk pk = Some ss -> length ss = 32%nat) ->
-    decap_collision extract expand dh dh_pub mlkem_decap shake256 sha3_256 XWING skR ->
-    sha3_collision sha3_256 \/ mlkem_ct_collision mlkem_decap.
-Proof. intros. eapply xwing_no_decap_collision; eassumption. Qed.
-Print Assumptions C06_xwing_decap_collision_is_sha3_or_mlkem_collision.
-
-(* Another private key (DHKEM: the recipient public key is in the KEM context).
-   Partial: stated for the four Diffie-Hellman KEMs only; for ML-KEM / X-Wing the
-   corresponding statement needs a key-binding property of ML-KEM itself. *)
-Theorem C06_hpke_binding_other_private_key_partial :
-  forall extract expand dh dh_pub mlkem_decap mlkem_encap mlkem_pub shake256 sha3_256 seal open,
-  hpke_laws expand dh dh_pub mlkem_decap mlkem_encap mlkem_pub seal open ->
+  xwing_len_laws dh mlkem_decap ->
   forall k d a prefix skR pkR skR' pkR' eph info pt c p',
-    is_dhkem k = true ->
     public_from_private dh_pub mlkem_pub shake256 k skR = Ok pkR ->
     public_from_private dh_pub mlkem_pub shake256 k skR' = Ok pkR' -> pkR' <> pkR ->
     hpke_encrypt extract expand dh dh_pub mlkem_encap sha3_256 seal k d a prefix pkR eph info pt = Ok c ->
     hpke_decrypt extract expand dh dh_pub mlkem_decap shake256 sha3_256 open k d a prefix skR' c info = Ok p' ->
-    extract_collision extract \/ expand_collision expand \/ seal_collision seal.
-Proof. intros until open. intros HL. use_hpke_laws HL. intros.
-  eapply hpke_binding_other_key_dhkem with (skR := skR) (skR' := skR') (pkR := pkR) (pkR' := pkR'); eassumption.
+    exists enc payload ss ss' key bn key' bn',
+      c = prefix ++ enc ++ payload /\ length enc = n_enc k /\
+      decap extract expand dh dh_pub mlkem_decap shake256 sha3_256 k enc skR = Ok ss /\
+      decap extract expand dh dh_pub mlkem_decap shake256 sha3_256 k enc skR' = Ok ss' /\
+      key_schedule extract expand k d a ss info = Ok (key, bn) /\
+      key_schedule extract expand k d a ss' info = Ok (key', bn') /\
+      payload = seal a key bn [] pt /\ payload = seal a key' bn' [] p' /\
+      schedules_meet extract expand seal k d a ss info ss' info key bn key' bn' pt p'
+        (kem_key_clash extract expand dh dh_pub mlkem_decap mlkem_pub shake256 sha3_256 k skR skR' enc).
+Proof.
+  intros until open. intros HL [X1 X2]. use_hpke_laws HL. intros.
+  eapply hpke_binding_other_key_explicit with (mlkem_encap := mlkem_encap) (pkR := pkR) (pkR' := pkR'); eassumption.
 Qed.
-Print Assumptions C06_hpke_binding_other_private_key_partial.
+Print Assumptions C06_hpke_binding_other_private_key.
+
+(* Nothing in those conclusions comes for free: every event projects to an
+   equation between two outputs of Expand of one positive length (hence non-empty)
+   or of Extract, on different inputs. *)
+Theorem C06_hpke_binding_events_are_collisions :
+  forall (extract : hash -> bytes -> bytes -> bytes) (expand : hash -> bytes -> bytes -> nat -> bytes),
+  (forall h prk info n, length (expand h prk info n) = n) ->
+  (forall h prk i prk' i' n, expand_clash expand h prk i prk' i' n ->
+     (prk, i) <> (prk', i') /\ expand h prk i n = expand h prk' i' n /\
+     (0 < length (expand h prk i n))%nat /\ expand h prk i n <> []) /\
+  (forall h x s x' s', extract_clash extract h x s x' s' ->
+     (x, s) <> (x', s') /\ extract h x s = extract h x' s') /\
+  (forall k d a ss info ss' info', ks_clash extract expand k d a ss info ss' info' ->
+     (exists h p i p' i' n, (p, i) <> (p', i') /\ (0 < n)%nat /\ expand h p i n = expand h p' i' n /\ expand h p i n <> [])
+     \/ (exists h x s x' s', (x, s) <> (x', s') /\ extract h x s = extract h x' s')).
+Proof.
+  intros extract expand L. split; [|split].
+  - intros. eapply expand_clash_is_collision; eassumption.
+  - intros. eapply extract_clash_is_collision; eassumption.
+  - intros. eapply ks_clash_is_collision; eassumption.
+Qed.
+Print Assumptions C06_hpke_binding_events_are_collisions.
+
+(* ... and an event is refutable in an instance whose Expand does not collide on
+   the inputs at hand (Expand := first n bytes of prk || info || 0...). *)
+Example C06_expand_clash_is_not_free : ~ expand_clash inj_expand SHA256 [1] [5] [2] [5] 1.
+Proof. exact expand_clash_not_free. Qed.
+
+(* The superseded predicates held outright under the length law / unconditionally. *)
+Example C06_old_collision_predicates_hold_outright :
+  (forall expand : hash -> bytes -> bytes -> nat -> bytes,
+     (forall h prk info n, length (expand h prk info n) = n) -> HpkeProofs.expand_collision expand) /\
+  (forall hkdf : hash -> bytes -> bytes -> bytes -> nat -> bytes,
+     (forall h ikm salt info n, length (hkdf h ikm salt info n) = n) -> EciesProofs.hkdf_collision hkdf) /\
+  (forall gcm_seal aes_ctr hmac_sha256 siv_seal, EciesProofs.dem_key_collision gcm_seal aes_ctr hmac_sha256 siv_seal).
+Proof.
+  split; [|split].
+  - intros. apply old_expand_collision_trivial; assumption.
+  - intros. apply old_hkdf_collision_trivial; assumption.
+  - intros. apply old_dem_key_collision_trivial.
+Qed.
 
 (* Another prefix (other key id, other variant byte) of the same length: Err, unconditionally. *)
 Theorem C06_hpke_binding_prefix :
@@ -282,6 +375,47 @@ Proof.
     split; [exact toy_mlkem_correct|]. split; [exact toy_mlkem_pub_len|].
     split; [exact toy_open_seal|exact toy_open_sound].
   - vm_compute. split; reflexivity.
+Qed.
+
+(* Non-vacuity of the binding theorems: in a toy instance satisfying both law
+   bundles (checksum "HKDF", constant Diffie-Hellman, public key = private key bytes)
+   an info with the same byte sum and a private key whose public key has the same
+   byte sum ARE accepted - the premises "Decrypt ... = Ok p'" are satisfiable, and
+   what the theorems then exhibit is a genuine collision of that weak Expand -
+   while an info / key with another byte sum is rejected. *)
+Example C06_hpke_binding_nonvacuous :
+  hpke_laws toy_expand toy32_dh toy3_dh_pub toy32_mlkem_decap toy32_mlkem_encap toy_mlkem_pub toy_seal toy_open /\
+  xwing_len_laws toy32_dh toy32_mlkem_decap /\
+  let prefix := [1; 0; 0; 0; 42] in
+  let skR := zeros 32 in
+  let skR' := [1; 255] ++ zeros 30 in
+  let skR'' := 1 :: zeros 31 in
+  let dec sk c info := hpke_decrypt toy_extract toy_expand toy32_dh toy3_dh_pub toy32_mlkem_decap toy_shake256 toy_sha3 toy_open
+                         X25519 HKDF_SHA256 AES128GCM prefix sk c info in
+  match public_from_private toy3_dh_pub toy_mlkem_pub toy_shake256 X25519 skR,
+        public_from_private toy3_dh_pub toy_mlkem_pub toy_shake256 X25519 skR',
+        public_from_private toy3_dh_pub toy_mlkem_pub toy_shake256 X25519 skR'' with
+  | Ok pkR, Ok pkR', Ok pkR'' =>
+    pkR' <> pkR /\ pkR'' <> pkR /\
+    match hpke_encrypt toy_extract toy_expand toy32_dh toy3_dh_pub toy32_mlkem_encap toy_sha3 toy_seal
+            X25519 HKDF_SHA256 AES128GCM prefix pkR (zeros 32) [1; 2; 3] [10; 20] with
+    | Ok c =>
+      dec skR c [1; 2; 3] = Ok [10; 20] /\
+      dec skR c [3; 2; 1] = Ok [10; 20] /\      (* colliding info: accepted *)
+      dec skR c [1; 2; 4] = Err /\
+      dec skR' c [1; 2; 3] = Ok [10; 20] /\     (* colliding other key: accepted *)
+      dec skR'' c [1; 2; 3] = Err
+    | _ => False
+    end
+  | _, _, _ => False
+  end.
+Proof.
+  split; [|split].
+  - split; [exact toy_expand_len|]. split; [exact toy3_dh_comm|]. split; [exact toy3_dh_pub_len|].
+    split; [exact toy32_mlkem_correct|]. split; [exact toy_mlkem_pub_len|].
+    split; [exact toy_open_seal|exact toy_open_sound].
+  - split; [exact toy32_mlkem_ss_len|exact toy32_x25519_len].
+  - vm_compute. repeat split; try reflexivity; discriminate.
 Qed.
 
 (* ================================================================== *)
@@ -362,23 +496,180 @@ Theorem C06_ecies_decrypt_accepts_exactly :
 Proof. intros until siv_open. intros HL. use_ecies_laws HL. intros. eapply ecies_decrypt_iff; eassumption. Qed.
 Print Assumptions C06_ecies_decrypt_accepts_exactly.
 
-(* Symbolic binding: change the KEM bytes and/or the info, leave the DEM
-   ciphertext: acceptance exhibits an HKDF collision, or one DEM ciphertext valid
-   under two different DEM keys. *)
+(* ---- symbolic binding, explicit form (events: proofs/EciesBinding.v) ----
+     hkdf_clash h ikm salt info ikm' salt' info' n   0 < n, (ikm, salt, info) <> (ikm', salt', info') and equal HKDF outputs
+     dem_clash d key iv p key' iv' p'                 supported DEM, two different keys of the DEM's key size, one frame *)
+
+(* Change the KEM bytes and/or the info, leave the DEM ciphertext.  If Decrypt
+   accepts: both points decode, both ECDH calls succeed, the DEM ciphertext is a
+   frame under both derived keys, and either the two keys differ (one DEM
+   ciphertext valid under two keys) or they are equal, the plaintext is unchanged
+   and HKDF, read for the DEM key size (>= 16), collides on kem || dh, info. *)
 Theorem C06_ecies_binding_kem_and_info :
   forall ec_dh ec_pub ec_oncurve ec_decompress hkdf gcm_seal gcm_open aes_ctr hmac_sha256 siv_seal siv_open,
   ecies_laws ec_dh ec_pub ec_oncurve ec_decompress hkdf gcm_seal gcm_open aes_ctr hmac_sha256 siv_seal siv_open ->
   forall c h f d salt prefix skR pkR eph iv info pt ct kem body kem' info' p',
-    ec_pub c skR = Some pkR ->
+    ec_pub c skR = Some pkR -> length iv = dem_iv_size d ->
     ecies_encrypt ec_dh ec_pub ec_oncurve hkdf gcm_seal aes_ctr hmac_sha256 siv_seal
       c h f d salt prefix pkR eph iv info pt = Ok ct ->
     ct = prefix ++ kem ++ body -> encoding_size c f = Ok (length kem) -> length kem' = length kem ->
     (kem' <> kem \/ info' <> info) ->
     ecies_decrypt ec_dh ec_oncurve ec_decompress hkdf gcm_open aes_ctr hmac_sha256 siv_open
       c h f d salt prefix skR (prefix ++ kem' ++ body) info' = Ok p' ->
-    hkdf_collision hkdf \/ dem_key_collision gcm_seal aes_ctr hmac_sha256 siv_seal.
-Proof. intros until siv_open. intros HL. use_ecies_laws HL. intros. eapply ecies_binding_kem_info; eassumption. Qed.
+    exists P s P' s' key key' iv',
+      point_decode ec_oncurve ec_decompress c f kem = Ok P /\ ec_dh c skR P = Some s /\
+      point_decode ec_oncurve ec_decompress c f kem' = Ok P' /\ ec_dh c skR P' = Some s' /\
+      key = hkdf h (kem ++ s) (effective_salt h salt) info (dem_key_size d) /\
+      key' = hkdf h (kem' ++ s') (effective_salt h salt) info' (dem_key_size d) /\
+      length iv' = dem_iv_size d /\
+      body = dem_frame gcm_seal aes_ctr hmac_sha256 siv_seal d key iv pt /\
+      body = dem_frame gcm_seal aes_ctr hmac_sha256 siv_seal d key' iv' p' /\
+      (dem_clash gcm_seal aes_ctr hmac_sha256 siv_seal d key iv pt key' iv' p'
+       \/ (key' = key /\ p' = pt /\
+           hkdf_clash hkdf h (kem ++ s) (effective_salt h salt) info (kem' ++ s') (effective_salt h salt) info' (dem_key_size d))).
+Proof.
+  intros until siv_open. intros HL. use_ecies_laws HL. intros.
+  eapply ecies_binding_kem_info_explicit with (ec_pub := ec_pub) (gcm_open := gcm_open) (siv_open := siv_open); eassumption.
+Qed.
 Print Assumptions C06_ecies_binding_kem_and_info.
+
+(* A changed DEM ciphertext (payload) is accepted only if it is itself a DEM frame,
+   under the very DEM key of the honest ciphertext, of the plaintext returned, with
+   another plaintext or another IV (producing one without the key is forgery of the
+   DEM: outside the symbolic model). *)
+Theorem C06_ecies_binding_payload :
+  forall ec_dh ec_pub ec_oncurve ec_decompress hkdf gcm_seal gcm_open aes_ctr hmac_sha256 siv_seal siv_open,
+  ecies_laws ec_dh ec_pub ec_oncurve ec_decompress hkdf gcm_seal gcm_open aes_ctr hmac_sha256 siv_seal siv_open ->
+  forall c h f d salt prefix skR pkR eph iv info pt ct kem body body' p',
+    ec_pub c skR = Some pkR ->
+    ecies_encrypt ec_dh ec_pub ec_oncurve hkdf gcm_seal aes_ctr hmac_sha256 siv_seal
+      c h f d salt prefix pkR eph iv info pt = Ok ct ->
+    ct = prefix ++ kem ++ body -> encoding_size c f = Ok (length kem) -> body' <> body ->
+    ecies_decrypt ec_dh ec_oncurve ec_decompress hkdf gcm_open aes_ctr hmac_sha256 siv_open
+      c h f d salt prefix skR (prefix ++ kem ++ body') info = Ok p' ->
+    exists key iv',
+      ecies_decapsulate ec_dh ec_oncurve ec_decompress hkdf c h f salt info (dem_key_size d) skR kem = Ok key /\
+      length iv' = dem_iv_size d /\
+      body = dem_frame gcm_seal aes_ctr hmac_sha256 siv_seal d key iv pt /\
+      body' = dem_frame gcm_seal aes_ctr hmac_sha256 siv_seal d key iv' p' /\ (p' <> pt \/ iv' <> iv).
+Proof.
+  intros until siv_open. intros HL. use_ecies_laws HL. intros.
+  eapply ecies_binding_payload with (ec_pub := ec_pub) (pkR := pkR) (eph := eph) (ct := ct); eassumption.
+Qed.
+Print Assumptions C06_ecies_binding_payload.
+
+(* Another private key, ciphertext and info untouched.
+   FULL-STRENGTH CLAUSE OF THE PROPERTY (false, see C06_ecies_other_private_key_refuted):
+     forall ... skR' pkR', ec_pub c skR' = Some pkR' -> pkR' <> pkR ->
+       ecies_encrypt ... pkR ... = Ok ct -> ecies_decrypt ... skR' ct info = Err   (or a collision of HKDF / the DEM).
+   What holds, with the exact exception: if Decrypt under skR' accepts, the DEM
+   ciphertext is a frame under both derived keys and either the keys differ
+   (dem_clash), or they are equal, the plaintext is the honest one, and either HKDF
+   collides on kem || s <> kem || s' or s' = s: BOTH PRIVATE KEYS HAVE THE SAME ECDH
+   VALUE ON THE EPHEMERAL POINT.  On a Weierstrass curve x(d'P) = x(dP) for a point P
+   of prime order n iff d' = +-d mod n, so the exception set is {skR, n - skR}; the
+   recipient public key is not an input of the KDF, and the exception is real (next
+   two theorems). *)
+Theorem C06_ecies_binding_other_private_key :
+  forall ec_dh ec_pub ec_oncurve ec_decompress hkdf gcm_seal gcm_open aes_ctr hmac_sha256 siv_seal siv_open,
+  ecies_laws ec_dh ec_pub ec_oncurve ec_decompress hkdf gcm_seal gcm_open aes_ctr hmac_sha256 siv_seal siv_open ->
+  forall c h f d salt prefix skR pkR skR' eph iv info pt ct p',
+    ec_pub c skR = Some pkR -> length iv = dem_iv_size d ->
+    ecies_encrypt ec_dh ec_pub ec_oncurve hkdf gcm_seal aes_ctr hmac_sha256 siv_seal
+      c h f d salt prefix pkR eph iv info pt = Ok ct ->
+    ecies_decrypt ec_dh ec_oncurve ec_decompress hkdf gcm_open aes_ctr hmac_sha256 siv_open
+      c h f d salt prefix skR' ct info = Ok p' ->
+    exists kem body P s s' key key' iv',
+      ct = prefix ++ kem ++ body /\ encoding_size c f = Ok (length kem) /\
+      point_decode ec_oncurve ec_decompress c f kem = Ok P /\ ec_dh c skR P = Some s /\ ec_dh c skR' P = Some s' /\
+      key = hkdf h (kem ++ s) (effective_salt h salt) info (dem_key_size d) /\
+      key' = hkdf h (kem ++ s') (effective_salt h salt) info (dem_key_size d) /\
+      length iv' = dem_iv_size d /\
+      body = dem_frame gcm_seal aes_ctr hmac_sha256 siv_seal d key iv pt /\
+      body = dem_frame gcm_seal aes_ctr hmac_sha256 siv_seal d key' iv' p' /\
+      (dem_clash gcm_seal aes_ctr hmac_sha256 siv_seal d key iv pt key' iv' p'
+       \/ (key' = key /\ p' = pt /\
+           (s' = s \/
+            hkdf_clash hkdf h (kem ++ s) (effective_salt h salt) info (kem ++ s') (effective_salt h salt) info (dem_key_size d)))).
+Proof.
+  intros until siv_open. intros HL. use_ecies_laws HL. intros.
+  eapply ecies_binding_other_key_explicit with (ec_pub := ec_pub) (pkR := pkR) (eph := eph)
+    (gcm_open := gcm_open) (siv_open := siv_open); eassumption.
+Qed.
+Print Assumptions C06_ecies_binding_other_private_key.
+
+(* The exception is real: a private key with the same ECDH function as the
+   recipient's (the negated scalar n - d, whose public key is -Q <> Q) decrypts
+   exactly what the recipient's key decrypts - in particular every honest
+   ciphertext, to the plaintext.  Confirmed on the real code for all three NIST
+   curves and all three point formats: findings/ecies_negated_private_key, harness
+   mutation n (known finding "ecies negated private key accepted"). *)
+Theorem C06_ecies_other_private_key_same_dh_decrypts :
+  forall ec_dh ec_pub ec_oncurve ec_decompress hkdf gcm_seal gcm_open aes_ctr hmac_sha256 siv_seal siv_open,
+  ecies_laws ec_dh ec_pub ec_oncurve ec_decompress hkdf gcm_seal gcm_open aes_ctr hmac_sha256 siv_seal siv_open ->
+  forall c h f d salt prefix skR pkR skR' eph iv info pt ct,
+    ec_pub c skR = Some pkR -> length iv = dem_iv_size d ->
+    ecies_encrypt ec_dh ec_pub ec_oncurve hkdf gcm_seal aes_ctr hmac_sha256 siv_seal
+      c h f d salt prefix pkR eph iv info pt = Ok ct ->
+    (forall P, ec_dh c skR' P = ec_dh c skR P) ->
+    ecies_decrypt ec_dh ec_oncurve ec_decompress hkdf gcm_open aes_ctr hmac_sha256 siv_open
+      c h f d salt prefix skR' ct info = Ok pt /\
+    (forall ct' info', 
+       ecies_decrypt ec_dh ec_oncurve ec_decompress hkdf gcm_open aes_ctr hmac_sha256 siv_open
+         c h f d salt prefix skR' ct' info' =
+       ecies_decrypt ec_dh ec_oncurve ec_decompress hkdf gcm_open aes_ctr hmac_sha256 siv_open
+         c h f d salt prefix skR ct' info').
+Proof.
+  intros until siv_open. intros HL. use_ecies_laws HL. intros. split.
+  - eapply ecies_other_key_same_dh_decrypts with (ec_pub := ec_pub) (skR := skR) (pkR := pkR) (eph := eph) (iv := iv); eassumption.
+  - intros. apply ecies_same_dh_same_decrypt. assumption.
+Qed.
+Print Assumptions C06_ecies_other_private_key_same_dh_decrypts.
+
+(* Refutation of the unconditional clause: the laws of the primitives do not
+   entail "another private key (another public key) yields an error".  Witness: a
+   toy group whose public keys differ while the ECDH value is the same - which is
+   what the NIST curves do for d and n - d (real-code witness: P-256, SHA-256,
+   uncompressed, AES128-GCM, NO_PREFIX, d = 00 11 00..00 05, d' = n - d). *)
+Theorem C06_ecies_other_private_key_refuted :
+  exists ec_dh ec_pub ec_oncurve ec_decompress hkdf gcm_seal gcm_open aes_ctr hmac_sha256 siv_seal siv_open,
+    ecies_laws ec_dh ec_pub ec_oncurve ec_decompress hkdf gcm_seal gcm_open aes_ctr hmac_sha256 siv_seal siv_open /\
+    exists c h f d salt prefix skR pkR skR' pkR' eph iv info pt ct,
+      ec_pub c skR = Some pkR /\ ec_pub c skR' = Some pkR' /\ pkR' <> pkR /\ length iv = dem_iv_size d /\
+      ecies_encrypt ec_dh ec_pub ec_oncurve hkdf gcm_seal aes_ctr hmac_sha256 siv_seal
+        c h f d salt prefix pkR eph iv info pt = Ok ct /\
+      ecies_decrypt ec_dh ec_oncurve ec_decompress hkdf gcm_open aes_ctr hmac_sha256 siv_open
+        c h f d salt prefix skR' ct info = Ok pt.
+Proof.
+  exists toy_ec_dh, toy2_ec_pub, toy_ec_oncurve, toy_ec_decompress, toy_hkdf, toy_gcm_seal, toy_gcm_open,
+    toy_aes_ctr, toy_hmac, toy_siv_seal, toy_siv_open.
+  split.
+  - split; [exact toy2_ec_dh_comm|]. split; [exact toy2_ec_pub_shape|]. split; [exact toy_ec_decompress_compress|].
+    split; [exact toy_hkdf_len|].
+    split; [exact toy_gcm_open_seal|]. split; [exact toy_gcm_open_sound|]. split; [exact toy_gcm_seal_len|].
+    split; [exact toy_aes_ctr_involutive|]. split; [exact toy_hmac_len|].
+    split; [exact toy_siv_open_seal|exact toy_siv_open_sound].
+  - exists NIST_P256, SHA256, UNCOMPRESSED, AES128_GCM, [5], [0; 0; 0; 0; 7], (zeros 32), (4 :: zeros 64),
+      (1 :: zeros 31), (4 :: (1 :: zeros 31) ++ zeros 32), (zeros 32), (zeros 12), [1; 2; 3], [10; 20].
+    eexists. split; [reflexivity|]. split; [reflexivity|]. split; [discriminate|]. split; [reflexivity|].
+    split; vm_compute; reflexivity.
+Qed.
+Print Assumptions C06_ecies_other_private_key_refuted.
+
+(* Events are genuine collisions at a positive length, and refutable in an
+   instance whose HKDF does not collide on the inputs at hand. *)
+Theorem C06_ecies_binding_events_are_collisions :
+  forall hkdf : hash -> bytes -> bytes -> bytes -> nat -> bytes,
+  (forall h ikm salt info n, length (hkdf h ikm salt info n) = n) ->
+  forall h ikm salt info ikm' salt' info' n,
+    hkdf_clash hkdf h ikm salt info ikm' salt' info' n ->
+    (ikm, salt, info) <> (ikm', salt', info') /\ hkdf h ikm salt info n = hkdf h ikm' salt' info' n /\
+    (0 < length (hkdf h ikm salt info n))%nat /\ hkdf h ikm salt info n <> [].
+Proof. intros. eapply hkdf_clash_is_collision; eassumption. Qed.
+Print Assumptions C06_ecies_binding_events_are_collisions.
+
+Example C06_hkdf_clash_is_not_free : ~ hkdf_clash inj_hkdf SHA256 [1] [] [5] [2] [] [5] 16.
+Proof. exact hkdf_clash_not_free. Qed.
 
 (* The recipient recomputes the sender's ciphertext byte for byte from the KEM
    bytes and DEM IV it carries (what the correspondence evaluates on Tink's output). *)
@@ -425,7 +716,11 @@ Example C06_ecies_nonvacuous :
       ecies_decrypt toy_ec_dh toy_ec_oncurve toy_ec_decompress toy_hkdf toy_gcm_open toy_aes_ctr toy_hmac toy_siv_open
         NIST_P256 SHA256 COMPRESSED AES128_GCM [5] [0; 0; 0; 0; 7] skR ct [1; 2; 3] = Ok [10; 20] /\
       ecies_decrypt toy_ec_dh toy_ec_oncurve toy_ec_decompress toy_hkdf toy_gcm_open toy_aes_ctr toy_hmac toy_siv_open
-        NIST_P256 SHA256 COMPRESSED AES128_GCM [5] [0; 0; 0; 0; 7] skR ct [1; 2; 4] = Err
+        NIST_P256 SHA256 COMPRESSED AES128_GCM [5] [0; 0; 0; 0; 7] skR ct [1; 2; 4] = Err /\
+      (* an info with the same byte sum is accepted: the premise "Decrypt = Ok p'" of the
+         binding theorems is satisfiable (and exhibits a genuine collision of the toy HKDF) *)
+      ecies_decrypt toy_ec_dh toy_ec_oncurve toy_ec_decompress toy_hkdf toy_gcm_open toy_aes_ctr toy_hmac toy_siv_open
+        NIST_P256 SHA256 COMPRESSED AES128_GCM [5] [0; 0; 0; 0; 7] skR ct [3; 2; 1] = Ok [10; 20]
     | _ => False
     end
   | None => False
@@ -437,5 +732,5 @@ Proof.
     split; [exact toy_gcm_open_seal|]. split; [exact toy_gcm_open_sound|]. split; [exact toy_gcm_seal_len|].
     split; [exact toy_aes_ctr_involutive|]. split; [exact toy_hmac_len|].
     split; [exact toy_siv_open_seal|exact toy_siv_open_sound].
-  - vm_compute. split; reflexivity.
+  - vm_compute. repeat split; reflexivity.
 Qed.
